@@ -279,7 +279,7 @@ def main():
     for r in undecided:
         print("UNDECIDED property=%s obligation=%s reason=%s" % (pid, r["name"], (r.get("why") or "")[:400].replace("\n", " ")))
 
-    if not a.no_evidence and not a.only:
+    if not a.no_evidence and not a.only and tier != "attempt":   # attempts are experiments, never evidence
         import evidence as E
         E.write(pid, suite, tier, seed, results, wall, len(violations), [k for _, _, k in known])
     print("%s tier=%s obligations=%d ok=%d violations=%d undecided=%d wall=%.1fs" % (
